@@ -341,7 +341,7 @@ func (r *runner) doReq(st *Step) {
 						return true
 					}
 				}
-				return strings.Contains(strings.ToLower(strings.Join(w.tagHdr[t304].Values("Cache-Control"), ",")), "no-store")
+				return w.tagNS[t304]
 			}
 			for _, t304 := range e.fg304 {
 				if !noStore(t304) {
@@ -450,7 +450,7 @@ func transportGoroutines() int {
 func RunScenario(t *testing.T, sc *Scenario, log *EventLog, seed int64, workDir string) {
 	synctest.Test(t, func(t *testing.T) {
 		s := scnSeed(sc.ID, seed)
-		w := newWorld(sc, log, s)
+		w := newWorld(sc, log, s, seed)
 		r := &runner{t: t, w: w, sc: sc, name: "c" + strconv.FormatInt(time.Now().UnixNano(), 36) + strconv.Itoa(os.Getpid())}
 		r.name = strings.ToLower(r.name) + strconv.FormatUint(uint64(s)&0xffffff, 36)
 		if sc.Backend == "fs" || sc.Backend == "fsenc" {
